@@ -114,7 +114,7 @@ theorem Matches.eq_advance {re : Re} {p q : Pos} (h : Matches re p q) :
   rw [this]; exact ⟨rfl, hn⟩
 
 /-- **Transport.** A match of a regex without text anchors depends on the text only up to the
-nearest line boundaries: two positions that look alike up to there (`Ext x y`) admit the same
+nearest line boundaries: two positions that look alike up to there (`Ext x y`) allow the same
 matches, as long as the match stays within `x`. -/
 theorem Matches.transport {re : Re} {p q : Pos} (h : Matches re p q) :
     re.noTextAnchor = true → ∀ {x y : Bytes} {p' : Pos}, Ext x y p → Ext x y p' →
